@@ -48,7 +48,7 @@ def cases(tier, seed):
                 d = dict(mesh)
                 d.update(list(scope.geometries(nd))[k % 6])
                 d.update({"fields": fs, "time": times[k % len(times)], "seed": seed,
-                          "payload": ["hostile_nonan", "decay", "signed"][(fi + 2 * mi + nd) % 3],
+                          "payload": ["hostile_nonan", "decay", "signed", "huge"][(fi + 2 * mi + nd) % 4],
                           "layout": [scope.layouts(len(b), 'idrev')[-1] for b in mesh["levels"]]})
                 other = FIELDSETS[(fi + 3) % len(FIELDSETS)]
                 d2 = dict(meshes[(mi + 1) % len(meshes)])
